@@ -38,6 +38,9 @@ CLAIMS = {
  "C17": dict(cat="other", design="DESIGN.md §3 C17",
    text="Same site audit as C04 over the cone of all public builder-side entry points, plus an abstract evaluation of Compressor::try_from per CompressionWithLevel variant with a symbolic level showing every path to flate2/liblzma/bzip2 constructors implies their accepted level range, plus result-discipline rules for Path decomposition in add_data and the capability error mapping. Three genuine panics (try_into().unwrap() on caller-supplied timestamps) are recorded as known findings.",
    technique="panic-site audit (as C04) + abstract interpretation with interval predicates for external partial functions"),
+ "C12": dict(cat="other", design="DESIGN.md §3 C12",
+   text="Taint-to-sink audit of Package::extract over MIR: every filesystem-modifying call on its cone is enumerated; the provenance term of its path argument must be the target itself or the Ok payload of the containment function applied to (target, package path); the containment function's Component arm table (.. and prefix -> error, only Normal names pushed), its who-may-write set and its symlink refusal (conditional on nothing but is-symlink and not-last) are checked; follow-capable calls on the final path must be dominated by symlink removal; panic-site audit of the cone; per-file-type arm table against the oracle. Universal over hostile packages because it covers every sink; filesystem races are out of scope.",
+   technique="taint-to-sink provenance audit + sanitiser arm table + dominance + panic-site audit"),
 }
 
 NA = {
